@@ -2,6 +2,7 @@ package promise
 
 import (
 	"context"
+	"github.com/aperturerobotics/util/verifhook"
 	"sync"
 )
 
@@ -32,6 +33,7 @@ func (o *Once[T]) Resolve(ctx context.Context) (T, error) {
 			return empty, context.Canceled
 		}
 
+		verifhook.Lock(o)
 		o.mtx.Lock()
 		prom := o.prom
 
@@ -41,13 +43,16 @@ func (o *Once[T]) Resolve(ctx context.Context) (T, error) {
 			o.prom = prom
 
 			go func() {
+				verifhook.Go("once.worker", o)
 				result, err := o.cb(ctx)
 				if err != nil {
+					verifhook.Lock(o)
 					o.mtx.Lock()
 					if o.prom == prom {
 						o.prom = nil
 					}
 					o.mtx.Unlock()
+					verifhook.Unlocked(o)
 
 					if ctx.Err() != nil {
 						prom.SetResult(empty, context.Canceled)
@@ -60,6 +65,7 @@ func (o *Once[T]) Resolve(ctx context.Context) (T, error) {
 			}()
 		}
 		o.mtx.Unlock()
+		verifhook.Unlocked(o)
 
 		// await result
 		res, err := prom.Await(ctx)
